@@ -107,7 +107,13 @@ def label_history(rng):
                                  {"keep": "*T*", "keepcoindex": True}])
             calls.append({"op": "transform", "name": "ptb_delete_traces", "tree": proto.enc_tree(t), "sid": 1, "params": params})
         elif r < 0.8:
-            calls.append({"op": "transform", "name": "mark_heads_by_rules", "tree": proto.enc_tree(t), "sid": 1, "params": {"mark_heads_preset": "ptb"}})
+            # the same sentence under one rule table and then under the other: what a table says about a production must
+            # not depend on what another table said before
+            first = rng.choice(["ptb", "negra"])
+            calls.append({"op": "transform", "name": "mark_heads_by_rules", "tree": proto.enc_tree(t), "sid": 1, "params": {"mark_heads_preset": first}})
+            if rng.random() < 0.7:
+                calls.append({"op": "transform", "name": "mark_heads_by_rules", "tree": proto.enc_tree(t), "sid": 1,
+                              "params": {"mark_heads_preset": "negra" if first == "ptb" else "ptb"}})
         else:
             calls.append({"op": "write", "fmt": "brackets", "tree": proto.enc_tree(t), "sid": 1, "opts": {"gf": True}})
     return calls
